@@ -127,7 +127,7 @@ def run(ctx):
     import re, pipe
     from props import generic
     RANGE = re.compile(r"@?(\d+)\.(\d+)\.(\d+)[- ](\d+)\.(\d+)\.(\d+)/(\d+)")
-    stores = generic.stores_for(ctx, dict(random=40, mutated=40, conforming=10, injected=20, cutinjected=40, cutflow=20))
+    stores = generic.stores_for(ctx, dict(random=40, mutated=40, conforming=10, injected=20, cutinjected=40, cutflow=20, stoptree=10))
     crlf = [([(p, (t.replace("\n", "\r\n") if t is not None else None)) for p, t in f], b, tag + "+crlf") for f, b, tag in stores[::3]]
     lead = [([(p, ("\n\n" + t if t is not None else None)) for p, t in f], b, tag + "+leading-blank") for f, b, tag in stores[1::5]]
     stores = stores + crlf + lead
